@@ -1,5 +1,5 @@
 """Shared machinery of the task-set checks C02, C04, C05, C47 (model Model/TaskSetModel.v, harness h_taskset.cpp)."""
-import re, dv, ls_common
+import os, re, dv, ls_common
 
 SITES = ['start', 'ts.canceled.load', 'tsk.schedule.outstanding.load', 'tsk.schedule.inline.body', 'cts.schedule.outstanding.load',
          'cts.schedule.inline.body', 'cts.schedule.inline2.body', 'cts.placed.outstanding.load', 'cts.placed.inline.body',
@@ -50,6 +50,37 @@ def ops_coq(l):
 
 def count_ops(l):
     return sum(1 + (count_ops(o[4]) if o[0] in 'sb' else 0) for o in l)
+
+
+def judge_parallel(ctx, imports, fn, terms, shard_size=120, jobs=12, timeout=900):
+    """ls_common.judge_parallel with scratch file names unique to this process: several ./check runs of the same property may share build/<id>/"""
+    import concurrent.futures as cf
+    if not terms:
+        return []
+    shards = [terms[i:i + shard_size] for i in range(0, len(terms), shard_size)]
+    tag = 'cases_p%d_%s' % (os.getpid(), fn)
+
+    def one(ix):
+        body = ('From Coq Require Import ZArith List Bool.\nImport ListNotations.\n' + imports + '\nLocal Open Scope Z_scope.\n' +
+                'Definition cases := %s.\nEval vm_compute in (map %s cases).\n' % (dv.coq_list(shards[ix]), fn))
+        rc, out = dv.coq_eval(ctx.work, '%s_%d' % (tag, ix), body, timeout)
+        try:
+            os.unlink(os.path.join(ctx.work, '%s_%d.v' % (tag, ix)))
+        except OSError:
+            pass
+        if rc != 0:
+            return ('err', out[-1500:])
+        vals = dv.eval_results(out)
+        return ('ok', dv.parse_zlist(vals[0]))
+    with cf.ThreadPoolExecutor(max_workers=jobs) as ex:
+        res = list(ex.map(one, range(len(shards))))
+    out = []
+    for kind, v in res:
+        if kind == 'err':
+            ctx.cov.setdefault('coq_eval_errors', []).append(v)
+            return None
+        out += v
+    return out
 
 
 def case_line(c):
@@ -423,11 +454,11 @@ def run_lockstep(ctx, exe, cases, judge, timeout=900):
             continue
         terms.append(case_term(c, p))
         kept.append((c, p, o))
-    verdicts = ls_common.judge_parallel(ctx, IMPORTS, judge, terms, shard_size=60)
+    verdicts = judge_parallel(ctx, IMPORTS, judge, terms, shard_size=60)
     if verdicts is None:
         # the model side does not evaluate: still judge the implementation's own log (verdicts 0 / 2 only)
         ctx.broken.append('correspondence L: the model no longer evaluates; judging the implementation log alone (%s_impl)' % judge)
-        verdicts = ls_common.judge_parallel(ctx, IMPORTS, judge + '_impl', terms, shard_size=60)
+        verdicts = judge_parallel(ctx, IMPORTS, judge + '_impl', terms, shard_size=60)
         if verdicts is None:
             return None
     return [(c, p, o, v) for (c, p, o), v in zip(kept, verdicts)]
@@ -510,11 +541,11 @@ def run_decisions(ctx, exe, dcases, judge):
             continue
         terms.append(d_term(d, v))
         kept.append((d, v, o))
-    verdicts = ls_common.judge_parallel(ctx, IMPORTS_D, judge, terms, shard_size=200)
+    verdicts = judge_parallel(ctx, IMPORTS_D, judge, terms, shard_size=200)
     if verdicts is None:
         # Gen/GenTaskSet.v (or the tie) is broken: the differential is not disabled, the implementation-only judge still evaluates
         ctx.broken.append('correspondence D: %s does not evaluate against the regenerated decision functions; judging the implementation alone (%s_impl)' % (judge, judge))
-        verdicts = ls_common.judge_parallel(ctx, IMPORTS, judge + '_impl', terms, shard_size=200)
+        verdicts = judge_parallel(ctx, IMPORTS, judge + '_impl', terms, shard_size=200)
         if verdicts is None:
             return None
     return [(d, v, o, x) for (d, v, o), x in zip(kept, verdicts)]
